@@ -5,9 +5,9 @@
     [evaluate]); Spec: Model/Grammar.v (Python's expression grammar by precedence levels,
     [render], [strip]).  The operator tables are the ones regenerated from the source
     (Gen/EvalTables.v, translator T2). *)
-From Coq Require Import ZArith.
+From Coq Require Import ZArith Ascii.
 From PintV Require Import Model.UC Model.Eval Model.Grammar Model.EvalRun Gen.EvalTables
-  Proofs.EvalSteps Proofs.EvalProofs Proofs.EvalInv Proofs.EvalTies Proofs.EvalFixed.
+  Proofs.EvalSteps Proofs.EvalProofs Proofs.EvalInv Proofs.EvalTies Proofs.EvalFixed Proofs.EvalUnc.
 Open Scope string_scope.
 Open Scope list_scope.
 
@@ -151,6 +151,27 @@ Theorem C07_no_value_on_dangling body o trail :
   TEnd ∉ body → is_operator EvalTables.op_priority o = true → Forall (λ x, x = TOther) trail →
   ∀ t, build EvalTables.op_priority (body ++ [o] ++ trail ++ [TEnd]) ≠ Ok t.
 Proof. exact (dangling_no_value _ body o trail tbl_ok_gen). Qed.
+
+(** ** +/- spelling variants: the concise notation N.ddd(uu) *)
+(** the standard-deviation token the tokenizer produces is [ip.fp] with exactly [ndec] decimals
+    and the value of the digits: N.ddd(uu) = N.ddd +/- uu * 10^-ndec *)
+Theorem C07_concise_uncertainty_value (ndec : nat) (ds : list Ascii.ascii) :
+  (0 < ndec)%nat →
+  ∃ ip fp, concise ndec ds = ip ++ "."%char :: fp ∧ length fp = ndec ∧ (1 ≤ length ip)%nat
+           ∧ dval (ip ++ fp) = dval ds
+           ∧ ip ++ fp = replicate (S ndec - length ds) "0"%char ++ ds.
+Proof. exact (concise_value ndec ds). Qed.
+Example C07_concise_examples :
+  concise_text 2 "4" = "0.04" ∧ concise_text 1 "34" = "3.4"
+  ∧ concise_text 2 "5678" = "56.78" ∧ concise_text 3 "10" = "0.010"
+  ∧ concise_text 0 "4" = "4" ∧ concise_text 2 "100" = "1.00".
+Proof. exact concise_examples. Qed.
+(** F41 (known finding): [**] is exempt from the priority test, also against the higher-priority
+    [+/-]: a power after an uncertainty literal applies to the standard deviation only *)
+Example C07_unc_pow_refuted :
+  build Eval.op_priority [TNum "1.2"; TOp "+/-"; TNum "0.4"; TOp "**"; TNum "2"; TEnd]
+  = Ok (Eval.Bin "+/-" (Leaf (TNum "1.2")) (Eval.Bin "**" (Leaf (TNum "0.4")) (Leaf (TNum "2")))).
+Proof. vm_compute. reflexivity. Qed.
 
 (** ** Literals *)
 Theorem C07_literals_keep_type n s :
